@@ -16,6 +16,7 @@ import (
 	"time"
 
 	anystore "github.com/anyproto/any-store"
+	"google.golang.org/protobuf/encoding/protowire"
 
 	"github.com/anyproto/any-sync/commonspace/headsync/headstorage"
 	"github.com/anyproto/any-sync/commonspace/object/accountdata"
@@ -741,4 +742,146 @@ func (w *world) kvSequence(f *treeFixture) {
 	}
 	w.r.Case("kvseq "+strings.Join(trace, " "), true)
 	w.r.Count("kv.seq.done")
+}
+
+// ---------------------------------------------------------------------------------------------
+// ACL: harness-SIGNED hostile records on a non-validating client list
+
+// signRecord wraps arbitrary AclData into a record that passes every signature check: signed by
+// `signer`, accepted (acceptor signature) by the network key the client trusts.
+func (w *world) signRecord(prevId string, signer *accountdata.AccountKeys, data *aclrecordproto.AclData) *consensusproto.RawRecordWithId {
+	rec := &consensusproto.Record{PrevId: prevId, Identity: must(signer.SignKey.GetPublic().Marshall()), Data: must(data.MarshalVT()), Timestamp: time.Now().Unix()}
+	payload := must(rec.MarshalVT())
+	raw := &consensusproto.RawRecord{Payload: payload, Signature: must(signer.SignKey.Sign(payload)),
+		AcceptorIdentity: must(w.netKey.GetPublic().Raw()), AcceptorSignature: must(w.netKey.Sign(payload))}
+	rb := must(raw.MarshalVT())
+	return &consensusproto.RawRecordWithId{Payload: rb, Id: must(cidutil.NewCidFromBytes(rb))}
+}
+
+// keyProto: a cryptoproto.Key message with a chosen type and data
+func keyProto(typ uint64, data []byte) []byte {
+	var b []byte
+	if typ != 0 {
+		b = protowire.AppendVarint(protowire.AppendTag(b, 1, protowire.VarintType), typ)
+	}
+	return protowire.AppendBytes(protowire.AppendTag(b, 2, protowire.BytesType), data)
+}
+
+// aclClientSequence: a CLIENT replica (non-validating verifier: records are trusted once the
+// acceptor signature checks out — the keep-only-ours path) receives correctly signed records whose
+// inner identities are malformed and addressed to the receiving account: its own key bytes under a
+// wrong key type, truncated / empty / over-long keys, non-canonical encodings, in every place an
+// identity occurs (read key change, account remove, accounts add, invites). Then probes.
+func (w *world) aclClientSequence(scripted int) {
+	r := w.r
+	owner := w.keys
+	author, err := list.NewInMemoryDerivedAcl("clientspace", owner)
+	if err != nil {
+		w.r.Fatal("acl: " + err.Error())
+	}
+	st, err := list.NewInMemoryStorage(author.Id(), []*consensusproto.RawRecordWithId{author.Root()})
+	if err != nil {
+		w.r.Fatal("acl storage: " + err.Error())
+	}
+	// the receiving account is the owner itself on another device, or (half of the runs) nobody the ACL knows
+	recvKeys := owner
+	if scripted == 0 && r.Chance(30) {
+		recvKeys = w.other
+	}
+	client, err := list.BuildAclListWithIdentity(recvKeys, st, recordverifier.New(w.netKey.GetPublic()))
+	if err != nil {
+		w.r.Fatal("acl client: " + err.Error())
+	}
+	ourRaw := must(recvKeys.SignKey.GetPublic().Raw())
+	ourProto := must(recvKeys.SignKey.GetPublic().Marshall())
+	otherProto := must(w.other.SignKey.GetPublic().Marshall())
+	sealed := must(recvKeys.SignKey.GetPublic().Encrypt([]byte("read key material 0123456789abcdef")))
+	identities := [][]byte{
+		keyProto(2, ourRaw),      // our key bytes typed AES
+		keyProto(1, ourRaw),      // … typed Ed25519Private
+		keyProto(7, ourRaw),      // … unknown type
+		keyProto(0, ourRaw[:31]), // truncated
+		keyProto(0, nil),         // empty key
+		{},                       // empty identity
+		keyProto(0, append(append([]byte{}, ourRaw...), 0)), // over-long
+		append(append([]byte{}, ourProto...), 0x28, 0x01),   // non-canonical: trailing unknown field
+		ourProto, otherProto, w.randBytes(12),
+	}
+	names := []string{"ours-as-aes", "ours-as-private", "ours-unknown-type", "truncated", "empty-key", "empty", "overlong", "noncanonical", "ours", "other", "garbage"}
+	pick := func() (int, []byte) {
+		k := r.Intn(len(identities))
+		return k, identities[k]
+	}
+	var trace []string
+	steps := 2 + r.Intn(4)
+	if scripted != 0 {
+		steps = 2
+	}
+	for i := 0; i < steps; i++ {
+		k, id := pick()
+		shape := r.Intn(4)
+		if scripted != 0 {
+			k, id, shape = (scripted-1)%len(identities), identities[(scripted-1)%len(identities)], (scripted-1)/len(identities)%2
+			if i == 1 {
+				k, id, shape = 8, ourProto, 0 // then a well-formed rotation
+			}
+		}
+		mk := func(identity []byte) *aclrecordproto.AclEncryptedReadKey {
+			return &aclrecordproto.AclEncryptedReadKey{Identity: identity, EncryptedReadKey: sealed}
+		}
+		rkc := &aclrecordproto.AclReadKeyChange{AccountKeys: []*aclrecordproto.AclEncryptedReadKey{mk(otherProto), mk(id)},
+			MetadataPubKey: ourProto, EncryptedMetadataPrivKey: sealed, EncryptedOldReadKey: sealed}
+		var data *aclrecordproto.AclData
+		var what string
+		switch shape {
+		case 0:
+			what = "readKeyChange"
+			data = &aclrecordproto.AclData{AclContent: []*aclrecordproto.AclContentValue{{Value: &aclrecordproto.AclContentValue_ReadKeyChange{ReadKeyChange: rkc}}}}
+		case 1:
+			what = "accountRemove+readKeyChange"
+			data = &aclrecordproto.AclData{AclContent: []*aclrecordproto.AclContentValue{{Value: &aclrecordproto.AclContentValue_AccountRemove{
+				AccountRemove: &aclrecordproto.AclAccountRemove{Identities: [][]byte{id}, ReadKeyChange: rkc}}}}}
+		case 2:
+			what = "accountsAdd"
+			data = &aclrecordproto.AclData{AclContent: []*aclrecordproto.AclContentValue{{Value: &aclrecordproto.AclContentValue_AccountsAdd{
+				AccountsAdd: &aclrecordproto.AclAccountsAdd{Additions: []*aclrecordproto.AclAccountAdd{{Identity: id, Permissions: aclrecordproto.AclUserPermissions_Writer, Metadata: sealed, EncryptedReadKey: sealed}}}}}}}
+		default:
+			what = "readKeyChange(metadata key, invite keys)"
+			rkc2 := &aclrecordproto.AclReadKeyChange{AccountKeys: []*aclrecordproto.AclEncryptedReadKey{mk(ourProto)}, InviteKeys: []*aclrecordproto.AclEncryptedReadKey{mk(id)},
+				MetadataPubKey: id, EncryptedMetadataPrivKey: sealed, EncryptedOldReadKey: sealed}
+			data = &aclrecordproto.AclData{AclContent: []*aclrecordproto.AclContentValue{{Value: &aclrecordproto.AclContentValue_ReadKeyChange{ReadKeyChange: rkc2}}}}
+		}
+		rec := w.signRecord(client.Head().Id, owner, data)
+		trace = append(trace, fmt.Sprintf("signed %s identity=%s", what, names[k]))
+		err, pan, hung := guardedFor(probeGuard, func() error {
+			client.Lock()
+			defer client.Unlock()
+			return client.AddRawRecord(rec)
+		})
+		if w.seqVerdict("acl.client.add", trace, pan, hung) {
+			return
+		}
+		w.r.Count("acl.client.add." + cls(err))
+		w.r.Count("acl.client.identity." + names[k])
+		// probes: read the state, the keys, and deliver the same record again
+		_, pan, hung = guardedFor(probeGuard, func() error {
+			client.RLock()
+			_ = client.AclState().CurrentAccounts()
+			_, _ = client.AclState().CurrentReadKey()
+			_ = client.Head()
+			client.RUnlock()
+			client.Lock()
+			defer client.Unlock()
+			_ = client.AddRawRecord(rec)
+			return nil
+		})
+		if pan != nil || hung {
+			trace = append(trace, "probe: read state + re-deliver")
+		}
+		if w.seqVerdict("acl.client.probe", trace, pan, hung) {
+			return
+		}
+	}
+	w.r.Case("aclclient "+strings.Join(trace, " ; "), true)
+	w.r.Count("acl.client.done")
 }
